@@ -497,13 +497,74 @@ fn covenant_scenario(mon: &mut C09, case_seed: u64) {
     }
 }
 
+/// Transactions at and beyond the sizes at which one-byte indexes run out: 255/256/257 and more inputs of
+/// existing coins, 255/256 outputs, hundreds of covenants and signature slots.
+fn boundary_size_scenario(mon: &mut C09, case_seed: u64) {
+    use melstructs::{BlockHeight, CoinData, CoinDataHeight, CoinID, CoinValue, TxHash};
+    let mut r = Rng::new(case_seed ^ 0xb16);
+    let net = *r.pick(&[NetID::Custom02, NetID::Custom08, NetID::Mainnet, NetID::Testnet]);
+    let height = 1_100_000 + r.below(100);
+    let mut fab = Fab::new(net, height);
+    fab.fee_multiplier = 0;
+    let at = always_true_cov();
+    let n_coins = *r.pick(&[256usize, 257, 258, 300, 511, 513, 700]);
+    for i in 0..n_coins {
+        let id = CoinID { txhash: TxHash(tmelcrypt::hash_keyed(b"c09big", (case_seed ^ (i as u64 / 200)).to_be_bytes())), index: (i % 200) as u8 };
+        fab.coins.push((id, CoinDataHeight { coin_data: CoinData { covhash: addr_of(&at), value: CoinValue(1000), denom: Denom::Mel, additional_data: Bytes::new() }, height: BlockHeight(height - 1) }));
+    }
+    let db = new_db();
+    let sealed = fab.build(&db);
+    let st = sealed.next_unsealed();
+    for n_in in [255usize, 256, 257, n_coins] {
+        if n_in > n_coins {
+            continue;
+        }
+        let n_out = *r.pick(&[1usize, 1, 2, 255, 256]);
+        let total = 1000u128 * n_in as u128;
+        let mut outputs = vec![CoinData { covhash: destroy_addr(), value: CoinValue(total - (n_out as u128 - 1)), denom: Denom::Mel, additional_data: Bytes::new() }];
+        for _ in 1..n_out {
+            outputs.push(CoinData { covhash: addr_of(&at), value: CoinValue(1), denom: Denom::Mel, additional_data: Bytes::new() });
+        }
+        let n_cov = *r.pick(&[1usize, 1, 256, 300]);
+        let n_sig = *r.pick(&[0usize, 1, 256, 300]);
+        let tx = Transaction {
+            kind: TxKind::Normal,
+            inputs: fab.coins[..n_in].iter().map(|c| c.0).collect(),
+            outputs,
+            fee: CoinValue(0),
+            covenants: (0..n_cov).map(|_| Bytes::from(at.clone())).collect(),
+            data: Bytes::new(),
+            sigs: (0..n_sig).map(|_| Bytes::from(vec![0u8; 64])).collect(),
+        };
+        mon.journal(&format!("C09 case={} boundary-size inputs={} outputs={} covenants={} sigs={}", case_seed, n_in, n_out, n_cov, n_sig));
+        mon.rep.eval();
+        mon.rep.count("apply_tx calls with 255 or more inputs");
+        mon.rep.nontrivial(fnv(&tx.hash_nosigs().0 .0));
+        let mut s2 = st.clone();
+        let t2 = tx.clone();
+        match guarded(move || s2.apply_tx(&t2).map(|_| s2.seal(None).header())) {
+            Ok(Ok(_)) => mon.rep.count(&format!("boundary-size transactions accepted and sealed: {} inputs", if n_in <= 255 { "255" } else if n_in == 256 { "256" } else { ">=257" })),
+            Ok(Err(_)) => mon.rep.count("boundary-size transactions rejected"),
+            Err(p) => {
+                if is_debug_only_dependency_overflow(&p) {
+                    mon.rep.count(&format!("excluded: overflow trap inside dependency '{}' present only with overflow checks", p.origin));
+                } else {
+                    let cls = format!("inputs{}", if n_in <= 255 { "<=255" } else if n_in == 256 { "=256" } else { ">=257" });
+                    let sig = format!("C09|panic:{}:{}|apply_tx|boundary-size:{}", p.origin, msg_class(&p.message), cls);
+                    mon.rep.violate(&sig, format!("apply_tx/seal panicked on a transaction with {} inputs, {} outputs, {} covenants, {} signatures: {} at {}", n_in, n_out, n_cov, n_sig, p.message, site(&p.location)), json!({"case_seed": case_seed, "inputs": n_in, "outputs": n_out, "covenants": n_cov, "sigs": n_sig, "net": format!("{:?}", net), "height": height + 1}));
+                }
+            }
+        }
+    }
+}
+
 pub fn run(p: &Params) -> Report {
     let total = p.n(2400, 60000);
     let mine = p.share(total);
     let mut rng = Rng::new(p.shard_seed() ^ 0xC09);
     let journal = p.journal.as_ref().and_then(|j| std::fs::File::create(j).ok());
     let mut mon = C09 { rep: Report::new("C09"), case_seed: 0, journal };
-    mon.rep.rule = "cases = API calls (apply_tx_batch, seal, next_unsealed, apply_block, confirm, from_block+header) on random histories over all network classes and fabricated heights with: one hostile mutation per batch (16 field-level mutators + byte-level mutation of the serialization that still deserializes), degenerate requests (zero-valued swaps/deposits/withdrawals, empty/garbage/partial MelPoW proofs at difficulties 0..2^32, undecodable stake documents, faucet-minted liquidity tokens, maximal values), every proposer delta class, multipliers 0..2^40; coins locked by adversarial covenant programs (self-append doubling up to 2^60 elements, nested loops, random bytes/instructions, environment digging) spent through apply_tx; every call runs under catch_unwind with a panic hook that records message, location and originating crate; each shard is its own process with a journal so an abort is attributed. Supply per denomination is kept below 2^127 by construction. Non-trivial = batch with a hostile or degenerate member; distinct by member hashes".into();
+    mon.rep.rule = "cases = API calls (apply_tx_batch, seal, next_unsealed, apply_block, confirm, from_block+header) on random histories over all network classes and fabricated heights with: one hostile mutation per batch (16 field-level mutators + byte-level mutation of the serialization that still deserializes), degenerate requests (zero-valued swaps/deposits/withdrawals, empty/garbage/partial MelPoW proofs at difficulties 0..2^32, undecodable stake documents, faucet-minted liquidity tokens, maximal values), every proposer delta class, multipliers 0..2^40; coins locked by adversarial covenant programs (self-append doubling up to 2^60 elements, nested loops, random bytes/instructions, environment digging) spent through apply_tx; transactions with 255/256/257/up to 700 inputs of existing coins, 255/256 outputs and hundreds of covenants and signature slots; every call runs under catch_unwind with a panic hook that records message, location and originating crate; each shard is its own process with a journal so an abort is attributed. Supply per denomination is kept below 2^127 by construction. Non-trivial = batch with a hostile or degenerate member; distinct by member hashes".into();
     if p.shard == 0 && p.only_case.is_none() {
         probes(&mut mon);
     }
@@ -518,10 +579,14 @@ pub fn run(p: &Params) -> Report {
         let mut r = Rng::new(case_seed ^ 9);
         scenario_history(&mut mon, case_seed, &mut r);
         covenant_scenario(&mut mon, case_seed);
+        if case_seed % 8 == 0 {
+            boundary_size_scenario(&mut mon, case_seed);
+        }
     }
     if p.only_case.is_none() {
         mon.rep.require("apply_tx_batch calls", p.n(1500, 30000));
         mon.rep.require("seal calls", p.n(1500, 30000));
+        mon.rep.require("apply_tx calls with 255 or more inputs", p.n(100, 2000));
     }
     mon.rep
 }
